@@ -26,6 +26,28 @@ Qed.
 Lemma tm_getenv_trimmed v : trimmed v = true -> tm_getenv v = if present v then Some v else None.
 Proof. intros H. unfold tm_getenv, present. rewrite (trim_trimmed _ H). now destruct v. Qed.
 
+(** TrimSpace is idempotent: its result has no white space at either end. *)
+Lemma drop_space_suffix s : exists pre, s = pre ++ drop_space s.
+Proof.
+  induction s as [|c r [pre IH]]; [now exists []|]. cbn. destruct (is_space c).
+  - exists (c :: pre). cbn. now rewrite <- IH.
+  - now exists [].
+Qed.
+Lemma drop_space_head s : match drop_space s with [] => True | c :: _ => is_space c = false end.
+Proof. induction s as [|c r IH]; cbn; [exact I|]. destruct (is_space c) eqn:E; [exact IH | exact E]. Qed.
+Lemma trimmed_trim v : trimmed (trim_space v) = true.
+Proof.
+  unfold trim_space. set (a := drop_space v). destruct (drop_space_suffix (rev a)) as [pre Hpre].
+  pose proof (drop_space_head (rev a)) as Hb. destruct (drop_space (rev a)) as [|c b'] eqn:Eb; [reflexivity|].
+  assert (Ha : a = (rev b' ++ [c]) ++ rev pre).
+  { rewrite <- (rev_involutive a), Hpre, rev_app_distr. reflexivity. }
+  pose proof (drop_space_head v) as Hv. fold a in Hv.
+  cbn [rev]. unfold trimmed. destruct (rev b' ++ [c]) as [|x r] eqn:Er; [now destruct (rev b')|].
+  rewrite <- Er, last_last. rewrite Hb. rewrite Ha in Hv. cbn in Hv. now rewrite Hv.
+Qed.
+Lemma tm_getenv_trim v : tm_getenv (trim_space v) = tm_getenv v.
+Proof. unfold tm_getenv. now rewrite (trim_trimmed _ (trimmed_trim v)). Qed.
+
 (** * options: a fold of setters keeps the last one *)
 Definition sel {A} (acc : option A) (d : A) : A := match acc with Some v => v | None => d end.
 Definition keep {A} (f : opt -> option A) (acc : option A) (o : opt) : option A :=
@@ -912,6 +934,111 @@ Lemma tm_malformed_headers_refuted :
             c_hdrs (exporter_config FMetric PGrpc [] e) <> exp_hdrs [] e /\
             c_hdrs (exporter_config FLog PGrpc [] e) = exp_hdrs [] e.
 Proof. exists env_f5. repeat split; vm_compute; congruence. Qed.
+
+(** * precedence without side conditions *)
+Lemma tm_env_norm pr sig f e c : f <> FLog -> tm_apply_env pr sig (norm_env f e) c = tm_apply_env pr sig e c.
+Proof.
+  intros Hf. assert (N : forall v, norm_val f v = trim_space v) by (destruct f; congruence || reflexivity).
+  unfold tm_apply_env, norm_env. cbn [gen_ep spec_ep gen_hdr spec_hdr gen_comp spec_comp gen_tmo spec_tmo gen_insec spec_insec].
+  unfold tm_env_url, tm_env_headers, tm_env_comp, tm_env_tmo, tm_env_insec. rewrite !N, !tm_getenv_trim. reflexivity.
+Qed.
+Lemma tm_config_norm pr sig f opts e : f <> FLog -> tm_config pr sig opts (norm_env f e) = tm_config pr sig opts e.
+Proof. intros Hf. unfold tm_config. now rewrite tm_env_norm. Qed.
+Lemma norm_trimmed f e : f <> FLog -> env_trimmed (norm_env f e) = true.
+Proof.
+  intros Hf. assert (N : forall v, norm_val f v = trim_space v) by (destruct f; congruence || reflexivity).
+  unfold env_trimmed, norm_env. cbn. now rewrite !N, !trimmed_trim.
+Qed.
+
+Lemma env_target_gen f pr sig c v : f <> FLog -> trimmed v = true ->
+  c_host (tm_env_url (tm_gen_endpoint pr sig) c v) = sel (rd_target f pr v) (c_host c).
+Proof.
+  intros Hf T. unfold tm_env_url, rd_target, rd_url. rewrite (tm_getenv_trimmed _ T).
+  destruct (present v); [|reflexivity]. destruct (parse_url v); [|reflexivity]. destruct f, pr; congruence || reflexivity.
+Qed.
+Lemma env_target_spec f pr c v : f <> FLog -> trimmed v = true ->
+  c_host (tm_env_url (tm_spec_endpoint pr) c v) = sel (rd_target f pr v) (c_host c).
+Proof.
+  intros Hf T. unfold tm_env_url, rd_target, rd_url. rewrite (tm_getenv_trimmed _ T).
+  destruct (present v); [|reflexivity]. destruct (parse_url v); [|reflexivity]. destruct f, pr; congruence || reflexivity.
+Qed.
+
+Lemma tm_unguarded f pr opts e : f <> FLog -> env_trimmed e = true ->
+  let c := tm_config pr (sig_path f) opts e in
+  c_host c = gen_host f pr opts e /\ (pr = PHttp -> c_path c = gen_path f opts e).
+Proof.
+  intros Hf T. destruct (env_trimmed_inv _ T) as (T1 & T2 & _). cbn zeta. split.
+  - unfold tm_config, gen_host, user_conn.
+    assert (H : c_host (fold_left tm_apply_opt opts (tm_apply_env pr (sig_path f) e (tm_default pr (sig_path f)))) =
+                resolve (last_some opt_host opts) (rd_target f pr (spec_ep e)) (rd_target f pr (gen_ep e)) (default_host pr)).
+    { rewrite (fold_opts_field c_host opt_host tm_opt_host). unfold tm_apply_env.
+      rewrite !tmo_keeps, !comp_keeps, !hdrs_keeps, !insec_keeps by reflexivity.
+      rewrite (env_target_spec f), (env_target_gen f) by assumption.
+      destruct (last_some opt_host opts), (rd_target f pr (spec_ep e)), (rd_target f pr (gen_ep e)); reflexivity. }
+    destruct pr; cbn [c_host set_path]; [exact H|].
+    unfold use_conn. rewrite tm_fold_conn. destruct (last_some opt_conn opts); [reflexivity | exact H].
+  - intros ->. unfold tm_config, gen_path. cbn [c_path set_path].
+    rewrite (fold_opts_field c_path opt_path tm_opt_path), tm_env_path_field by assumption.
+    cbn [tm_default c_path].
+    replace (fam_gen_path f (gen_ep e)) with (tm_gen_path (sig_path f) (gen_ep e)) by (unfold fam_gen_path, tm_gen_path; destruct f; congruence || reflexivity).
+    rewrite (resolve_sel (last_some opt_path opts)). destruct f; congruence || reflexivity.
+Qed.
+
+Lemma log_unguarded pr opts e :
+  let c := log_config pr opts e in
+  c_host c = gen_host FLog pr opts e /\ (pr = PHttp -> c_path c = gen_path FLog opts e).
+Proof.
+  cbn zeta. split.
+  - destruct (log_settings pr opts e) as (_ & _ & _ & H & _). rewrite H. unfold exp_host, gen_host, rd_target, rd_host.
+    destruct (user_conn pr opts); [reflexivity|]. f_equal; destruct (rd_url _); destruct pr; reflexivity.
+  - intros ->. unfold log_config, gen_path. cbn [c_path]. rewrite (fold_log_field PHttp l_path opt_path log_opt_path).
+    cbn [lset0 l_path]. rewrite <- last_some_fold, !log_getenv_first.
+    unfold rd_path_specific, fam_gen_path, rd_url. cbn [present is_nil negb first_of fam_path_final wire_path].
+    destruct (last_some opt_path opts); cbn [or_else or_dflt resolve]; [reflexivity|].
+    destruct (present (spec_ep e)); [destruct (parse_url (spec_ep e))|]; cbn [option_map first_of or_else or_dflt];
+      try reflexivity; destruct (present (gen_ep e)); [destruct (parse_url (gen_ep e))| | destruct (parse_url (gen_ep e))|]; reflexivity.
+Qed.
+
+Lemma precedence_unguarded f pr opts e :
+  let c := exporter_config f pr opts e in
+  let e' := norm_env f e in
+  c_tmo c = exp_tmo opts e' /\ c_host c = gen_host f pr opts e' /\ (pr = PHttp -> c_path c = gen_path f opts e').
+Proof.
+  cbn zeta. destruct f.
+  - unfold exporter_config. rewrite <- (tm_config_norm pr _ FTrace) by discriminate.
+    destruct (tm_settings pr (sig_path FTrace) opts _ (norm_trimmed FTrace e ltac:(discriminate))) as (H & _).
+    destruct (tm_unguarded FTrace pr opts _ ltac:(discriminate) (norm_trimmed FTrace e ltac:(discriminate))) as (H1 & H2). auto.
+  - unfold exporter_config. rewrite <- (tm_config_norm pr _ FMetric) by discriminate.
+    destruct (tm_settings pr (sig_path FMetric) opts _ (norm_trimmed FMetric e ltac:(discriminate))) as (H & _).
+    destruct (tm_unguarded FMetric pr opts _ ltac:(discriminate) (norm_trimmed FMetric e ltac:(discriminate))) as (H1 & H2). auto.
+  - unfold exporter_config. destruct (log_settings pr opts e) as (H & _). destruct (log_unguarded pr opts e) as (H1 & H2).
+    replace (norm_env FLog e) with e by (destruct e; reflexivity). auto.
+Qed.
+
+(** The conventions differ between the families: the side conditions of [precedence] cannot
+    simply be dropped from the UNIFORM statement. *)
+Definition env_pad : env :=
+  {| gen_ep := []; spec_ep := []; gen_hdr := []; spec_hdr := []; gen_comp := []; spec_comp := [];
+     gen_tmo := str " 150"; spec_tmo := []; gen_insec := []; spec_insec := [] |}.
+Definition env_grpc_path : env :=
+  {| gen_ep := str "http://h:1/x"; spec_ep := []; gen_hdr := []; spec_hdr := []; gen_comp := []; spec_comp := [];
+     gen_tmo := []; spec_tmo := []; gen_insec := []; spec_insec := [] |}.
+Lemma padded_value_refuted :
+  c_tmo (exporter_config FTrace PHttp [] env_pad) = 150000000%Z /\
+  c_tmo (exporter_config FLog PHttp [] env_pad) = default_timeout_ns /\
+  c_tmo (exporter_config FLog PHttp [] env_pad) <> exp_tmo [] (norm_env FTrace env_pad).
+Proof. repeat split; vm_compute; congruence. Qed.
+Lemma grpc_url_path_refuted :
+  c_host (exporter_config FTrace PGrpc [] env_grpc_path) = str "h:1/x" /\
+  c_host (exporter_config FLog PGrpc [] env_grpc_path) = str "h:1" /\
+  c_host (exporter_config FTrace PGrpc [] env_grpc_path) <> exp_host PGrpc [] env_grpc_path.
+Proof. repeat split; vm_compute; congruence. Qed.
+Lemma option_path_conventions_differ :
+  c_path (exporter_config FTrace PHttp [OURLPath (str "custom/")] env0) = str "/custom" /\
+  c_path (exporter_config FLog PHttp [OURLPath (str "custom/")] env0) = str "/custom/" /\
+  c_path (exporter_config FMetric PHttp [OEndpointURL (str "http://h")] env0) = str "/v1/metrics" /\
+  c_path (exporter_config FLog PHttp [OEndpointURL (str "http://h")] env0) = str "/".
+Proof. repeat split; vm_compute; reflexivity. Qed.
 
 (** * SDK settings *)
 Open Scope Z_scope.
